@@ -236,6 +236,12 @@ func (e *Engine) stub6(fn *ssa.Function, args []any) (any, bool) {
 		return newObj(c), true
 	case "(*crypto/tls.Conn).HandshakeContext":
 		c := (*args[0].(Ptr).cells)[0].(*TLSConnV)
+		// a handshake under a context that is already cancelled fails with the context's error before anything is sent
+		if cx, ok := args[1].(IfaceV); ok {
+			if cv, isCtx := cx.V.(*CtxV); isCtx && cv.done {
+				return e.ctxMethod(cv, "Err"), true
+			}
+		}
 		if c.client {
 			return e.clientHandshake(c), true
 		}
@@ -403,15 +409,6 @@ func (e *Engine) clientHandshake(c *TLSConnV) any {
 	if skip, _ := getF(cfg, tConfig, "InsecureSkipVerify").(bool); !skip {
 		return fail("model: only InsecureSkipVerify client configurations are supported")
 	}
-	if req, _ := c.adv[fieldIdx(advSt, "RequestsClientCert")].(bool); req {
-		cri := zero(namedType("crypto/tls", "CertificateRequestInfo")).(StructV)
-		setF(cri, namedType("crypto/tls", "CertificateRequestInfo"), "AcceptableCAs", c.adv[fieldIdx(advSt, "AcceptableCAs")])
-		if r, ok := e.callField(cfg, tConfig, "GetClientCertificate", newObj(cri)); ok {
-			if t := r.(Tuple); t[1].(IfaceV).T != nil {
-				return t[1]
-			}
-		}
-	}
 	st := zero(tConnState).(StructV)
 	setF(st, tConnState, "NegotiatedProtocol", c.adv[fieldIdx(advSt, "Proto")])
 	setF(st, tConnState, "Version", int64(0x0304))
@@ -424,6 +421,16 @@ func (e *Engine) clientHandshake(c *TLSConnV) any {
 	}
 	if !e.branch(c.adv[fieldIdx(advSt, "HoldsLeafKey")]) {
 		return fail("invalid signature by the server certificate")
+	}
+	// crypto/tls answers the certificate request only after the server's certificate and CertificateVerify passed
+	if req, _ := c.adv[fieldIdx(advSt, "RequestsClientCert")].(bool); req {
+		cri := zero(namedType("crypto/tls", "CertificateRequestInfo")).(StructV)
+		setF(cri, namedType("crypto/tls", "CertificateRequestInfo"), "AcceptableCAs", c.adv[fieldIdx(advSt, "AcceptableCAs")])
+		if r, ok := e.callField(cfg, tConfig, "GetClientCertificate", newObj(cri)); ok {
+			if t := r.(Tuple); t[1].(IfaceV).T != nil {
+				return t[1]
+			}
+		}
 	}
 	setF(st, tConnState, "HandshakeComplete", true)
 	c.state, c.done = st, true
